@@ -128,13 +128,41 @@ Definition uidcopy_sched (s : store) (sel : Z) (set : list uspec) (dest : str)
       N  is there a mailbox x?          N  id of INBOX            (autocommit reads)
       parents, V + M: the target row (CreateMailboxPerUser)        (autocommit)
       B  BEGIN
-      U  UPDATE mailboxes SET uid_next = (SELECT uid_next FROM mailboxes WHERE id = inbox)
-                              WHERE id = target          -- counter copied INSIDE the transaction
+      U  UPDATE mailboxes SET uid_next = MAX(uid_next, (SELECT uid_next FROM mailboxes WHERE id = inbox))
+                              WHERE id = target          -- counters read INSIDE the transaction
       P  UPDATE message_mailbox SET mailbox_id = target WHERE mailbox_id = inbox
       C  COMMIT
     [e1]: the other sessions' complete commands between the creation of the target
     row and the transaction (nothing can commit inside it). *)
 Definition rename_inbox_sched (s : store) (new : str) (t : Z) (e1 : list op) : store * result :=
+  match find_name s new with
+  | Some _ => (run e1 s, RNo)
+  | None =>
+    match find_name s INBOX with
+    | None => (run e1 s, RNo)
+    | Some ib =>
+      let '(s0, ok) := create_parents s new t in
+      if negb ok then (run e1 s0, RNo) else
+      match create_mailbox_row s0 new t with
+      | None => (run e1 s0, RNo)
+      | Some (s1, nid) =>
+        let s2 := run e1 s1 in
+        match find_id s2 (mb_id ib) with
+        | None => (s2, RNo)
+        | Some ib' =>
+          let cur := match find_id s2 nid with Some mt => mb_next mt | None => 1 end in
+          match reparent (set_next s2 nid (Z.max cur (mb_next ib'))) (mb_id ib) nid with
+          | Some s3 => (s3, ROk)
+          | None => (s2, RNo)
+          end
+        end
+      end
+    end
+  end.
+
+(** before raven 8552cfb: the target's counter was overwritten with INBOX's (read
+    inside the transaction) even when it was smaller than the target's own *)
+Definition rename_inbox_sched_overwrite (s : store) (new : str) (t : Z) (e1 : list op) : store * result :=
   match find_name s new with
   | Some _ => (run e1 s, RNo)
   | None =>
